@@ -120,11 +120,11 @@ UNITS = ['MIT AND ', '(', 'GPL-2.0-or-later OR ', 'Apache-2.0-or-later AND ', 'A
 
 def c15(tier, seed):
     q = tier == 'quick'
-    prefixes = [''] + UNITS + [a + b for a in UNITS for b in UNITS]
+    prefixes = [''] + UNITS + [a + b for a in UNITS for b in UNITS] + ['  ', ' ( ', '   MIT AND ', '  Apache-2.0-or-later OR ']
     if not q:
         prefixes += [a + b + c for a in UNITS[2:6] for b in UNITS[2:6] for c in UNITS[2:6]]
     else:
-        prefixes = prefixes[:13] + prefixes[13:][seed % 3::3]
+        prefixes = prefixes[:13] + prefixes[13:-4][seed % 3::3] + prefixes[-4:]
     jobs = []
     for pre in prefixes:
         for k in (1, 2, 3) if q else (1, 2, 3, 4):
@@ -239,7 +239,7 @@ def c09(tier, seed):
         gs.append(grp('case/with-suffix', 'VH_case', vj, cost=5, bound='every id followed by + / WITH exception, all case masks',
                       symbolic='one boolean per letter', asserts=['case-variant-valid', 'extract-canonical', 'case-variant-matches']))
     else:
-        gs.append(grp('case/with-suffix', 'VH_case', vj[seed % 4::4], cost=5, bound='a quarter (seed-chosen) of the ids followed by + / WITH exception, all case masks',
+        gs.append(grp('case/with-suffix', 'VH_case', vj, cost=5, bound='every id followed by + / WITH exception, all case masks',
                       symbolic='one boolean per letter', asserts=['case-variant-valid', 'extract-canonical', 'case-variant-matches']))
     lists = ['active', 'deprecated', 'exception']
     gs.append(grp('fold-unique', 'VH_foldUnique', [[a, b] for i, a in enumerate(lists) for b in lists[i:]], cost=1,
@@ -439,7 +439,7 @@ def c06(tier, seed):
 def c07(tier, seed):
     gs = []
     thorough = tier == 'thorough'
-    for n, kinds, m, big in ((1, ['L', 'P', 'W', 'R', 'O'], 3, 1), (2, ['LL', 'LR', 'PW', 'OD'], 3, 1), (3, ['LLL', 'LRW', 'PLO'], 2 if not thorough else 3, 1),
+    for n, kinds, m, big in ((1, ['L', 'P', 'W', 'R', 'O'], 3, 1), (2, ['LL', 'LR', 'PW', 'OD', 'DD', 'Rr'], 3, 1), (3, ['LLL', 'LRW', 'PLO', 'DDL'], 2 if not thorough else 3, 1),
                              (4, ['LLLL', 'LRLR'] if thorough else ['LLLL'], 2, 0)):
         ts = trees(n)
         if n == 4 and not thorough:
@@ -549,6 +549,8 @@ def c10(tier, seed):
             idn = ''.join(str(i) for i in range(n))
             rj.append([e, e, 'L' * n, idn, 'F', 'M', 2, 0, 1])
             rj.append([e, e, ('LR' * 2)[:n], idn, 'M', 'S', 2, 0, 1])
+            rj.append([e, e, 'L' * n, idn, 'F', 'T', 2, 0, 1])
+            rj.append([e, e, ('RL' * 2)[:n], idn, 'M', 'T', 2, 0, 1])
     gs.append(grp('rewrites', 'VH_rewrite', rj, merge=MS, cost=5, bound='single rewrite steps (commutativity, associativity, idempotence, absorption, distribution, parentheses, spacing) on trees of <= %d leaves incl. context' % (5 if thorough else 4),
                   symbolic='allowed entries (choice variables)', asserts=['no-error-on-valid', 'rewrite-preserves-verdict', 'rewrite-preserves-terms']))
     return gs
